@@ -127,19 +127,26 @@ impl Members {
     // A result of `true` means that the effective list of
     // cluster member addresses has changed
     pub fn remove_member(&mut self, actor: &Actor) -> bool {
-        let effectively_down = if let Some(member) = self.states.get(&actor.id()) {
-            member.ts == actor.ts()
-        } else {
-            // Shouldn't happen
-            false
+        // A down for the identity we know, or for a newer one: an active member that
+        // renews its identity is only announced as a rename, so the down of the renewed
+        // identity is the first up/down notification carrying its timestamp.
+        // A down for an older identity never removes a newer one.
+        let current_addr = match self.states.get(&actor.id()) {
+            Some(member) if actor.ts().to_duration() >= member.ts.to_duration() => {
+                Some(member.addr)
+            }
+            // older identity, or unknown member (shouldn't happen)
+            _ => None,
         };
 
-        if effectively_down {
-            self.by_addr.remove(&actor.addr());
+        if let Some(addr) = current_addr {
+            if self.by_addr.get(&addr) == Some(&actor.id()) {
+                self.by_addr.remove(&addr);
+            }
             self.states.remove(&actor.id());
         }
 
-        effectively_down
+        current_addr.is_some()
     }
 
     pub fn add_rtt(&mut self, addr: SocketAddr, rtt: Duration) {
